@@ -124,6 +124,20 @@ Definition protection_gke_from_cache (cache : ccache) (rkid : option bytes) (tar
     end
   end.
 
+(* the cache _get_protection_gke_from_cache leaves behind when it raises AFTER its cache._get_key call returned (KDFParameters.unpack /
+   compute_l2_key raising): KeyCache._get_key has mutated the cache object by then (a root-derived entry stays; checked against the
+   running code), so this is the cache after the lookup, not the one the call started with *)
+Definition protection_lookup_cache (cache : ccache) (rkid : option bytes) (target_sd : bytes) (time_ns : Z) : ccache :=
+  match rkid with
+  | None => cache
+  | Some rid =>
+    let '(l0, l1, l2) := interval_of_time_ns time_ns in
+    match cc_get_key cache target_sd rid l0 l1 l2 with
+    | Ok (_, cache1) => cache1
+    | Raise _ => cache
+    end
+  end.
+
 (* ncrypt_protect_secret with a cache and no reachable domain controller *)
 Definition protect_offline (cache : ccache) (rnd_cek rnd_iv rnd_kek : bytes) (data : bytes) (sid : pystr)
     (rkid : option bytes) (time_ns : Z) : res bytes * ccache :=
@@ -131,7 +145,7 @@ Definition protect_offline (cache : ccache) (rnd_cek rnd_iv rnd_kek : bytes) (da
   | Raise e => (Raise e, cache)
   | Ok sd =>
     match protection_gke_from_cache cache rkid sd time_ns with
-    | Raise e => (Raise e, cache)
+    | Raise e => (Raise e, protection_lookup_cache cache rkid sd time_ns)
     | Ok (None, cache1) => (Raise NeedNetwork, cache1)
     | Ok (Some rk, cache1) =>
       let cache2 := if gke_is_public_key rk then cache1 else cc_store_key cache1 sd rk in
